@@ -636,12 +636,16 @@ impl Session {
 }
 
 pub fn obs_frompgn(text: &str) -> (String, &'static str) {
-    let c = match catch(|| Game::from_pgn(text).is_ok()) {
-        None => "panic",
-        Some(true) => "ok",
-        Some(false) => "err",
-    };
-    (format!("r={c}"), c)
+    match catch(|| Game::from_pgn(text)) {
+        None => ("r=panic".to_string(), "panic"),
+        Some(Err(_)) => ("r=err".to_string(), "err"),
+        Some(Ok(gm)) => {
+            let st = g(|| gstatus_text(gm.get_game_status()).to_string());
+            let n = g(|| gm.get_action_history().get_moves().len().to_string());
+            let fen = g(|| gm.as_fen().replace(' ', "_"));
+            (format!("r=ok st={st} n={n} fen={fen}"), "ok")
+        }
+    }
 }
 
 
